@@ -29,12 +29,12 @@ NSHARDS = {"quick": 16, "thorough": 16}
 BUDGET_S = {"quick": 25, "thorough": 600}
 FLOORS = {
     "quick": {"evaluations": 4000, "distinct": 600,
-              "counters": {"model_compares": 3000, "rename_compares": 1500,
+              "counters": {"model_compares": 3000, "rename_compares": 1500, "namespace_from_context_compares": 60,
                            "feat_shadowing": 50, "feat_conditional_assignment": 50,
                            "feat_read_outer_in_inner": 50, "feat_closure_capture": 50,
                            "feat_loop_else": 50, "feat_namespace_write": 30}},
     "thorough": {"evaluations": 100000, "distinct": 15000,
-                 "counters": {"model_compares": 80000, "rename_compares": 40000,
+                 "counters": {"model_compares": 80000, "rename_compares": 40000, "namespace_from_context_compares": 1500,
                               "feat_shadowing": 1000, "feat_conditional_assignment": 1000,
                               "feat_read_outer_in_inner": 1000, "feat_closure_capture": 1000,
                               "feat_loop_else": 1000, "feat_namespace_write": 500}},
@@ -186,6 +186,17 @@ def check_program(ctx, body, recipe, renamings=("ascii", "unicode", "keywordlike
         else:
             ctx.violation("scoping:" + first_diff_kind(body, mo, eo), f"{bad} | src={src!r}", case)
         return
+    # metamorphic: the namespace object may as well come from the render context
+    if renamings and body and body[0][:2] == ["set", "ns"]:
+        from jinja2.utils import Namespace
+
+        eo3, src3 = engine_render(body[1:], dict(data, ns=Namespace(v=0, w=1)))
+        ctx.ev()
+        ctx.count("namespace_from_context_compares")
+        bad = same_outcome(eo, eo3)
+        if bad:
+            ctx.violation("namespace-from-context", f"{bad} | with ns=namespace(v=0, w=1) passed to render(): "
+                          f"src={src3!r} orig={src!r}", {**case, "ns_from_context": True})
     # metamorphic: consistent renaming never changes the output
     for rn in renamings:
         mp = RENAMINGS[rn]
